@@ -222,6 +222,14 @@ package keeper
 //@   ensures [C17.pay.methods] err == nil ==> didMethod(msg.Did) == "sid" || didMethod(msg.Did) == "key"
 //@   ensures [C17.pay.err] err != nil ==> PaymentAddress[msg.Did] == old(PaymentAddress[msg.Did]) && (has(PaymentAddress, msg.Did) <==> old(has(PaymentAddress, msg.Did)))
 
+//@ func getVersionInfo(query) (res)
+//@   modifies nothing
+//@   loop L1 invariant -1 <= rangeindex
+
+// ValidDid: read-only check that a DID is built in or known to the registry (used for grantee lists)
+//@ func (Keeper) ValidDid(ctx, did) (err)
+//@   modifies nothing
+
 // Binding: an account is bound to a sid DID by a fresh proof signed with the account's key; once the DID exists only an
 // account already bound to it can add another; the first cosmos account becomes the payment address
 //@ func (msgServer) Binding(goCtx, msg) (resp, err)
